@@ -19,7 +19,8 @@ M2 = ("Lean 4 theorems about the queue machine M2 (lean/Taskpool/Model/Queue.lea
       "refinement argument; tied to /repo on every run by lock-step execution of the real Queue under the stepped loop "
       "against the compiled model (FIFO and non-FIFO schedules, exhaustive small scope + generated histories)")
 M2_NOTE = ("trusted: Lean kernel; axioms propext / Classical.choice / Quot.sound only; the unverified Python harness; "
-           "asyncio.Queue's own put/get machinery is modelled, not verified")
+           "asyncio.Queue's own put/get machinery (getter and putter futures, _wakeup_next, QueueFull) is modelled, not verified; "
+           "producer tasks are one `await queue.put(x)` each, maxsize 1-3 in the generated histories (theorems: every maxsize)")
 M3 = ("Lean 4 theorems about the control machine M3 (lean/Taskpool/Model/Control*.lean: member table -> command table, "
       "three-phase command parser, dispatch, reply rule, session pump, server life cycle), proved for all well-formed "
       "tables, all token lists and all session/server histories; tied to /repo on every run by extracting the member "
@@ -46,7 +47,7 @@ TEXT = {
     "C13": "flush never forgets a task that still holds its slot, for every history without gather_and_close and any number of overlapping flushes (FlushOK invariant); exact effect of flush's last step; collecting flush cannot raise; every flush() has returned at quiescence; neither flush nor gather_and_close forgets an unfinished task in any history in which nobody calls unlock(); a task inside its end callback stays filed as ended and flush forgets finished tasks only (sealed histories)",
     "C14": "stop(n) = cancel of the last min(n,running) ids newest first; never raises; others unaffected",
     "C15": "as-is semantics proved exactly + closed refutations of the three violated clauses (known findings R5), negative value rejected",
-    "C20": "refinement proof over all histories of the queue machine: exactly-once marking (also next to hand marks: take = get_nowait()+item_processed() by non-task code), unfinished=puts-exits-takes, join iff",
+    "C20": "refinement proof over all queue sizes (Queue() and Queue(maxsize=m)) and all histories of the queue machine: exactly-once marking (also next to hand marks: take = get_nowait()+item_processed() by non-task code), unfinished=puts-exits-takes with an item counted when it enters the queue, join iff; bounded queues with producer tasks blocked in put(): never more than maxsize items, a producer cancelled inside put() puts nothing, no lost putter wake-up (counting invariant of the shell)",
     "C16": "command surface = public functions and properties, dash-naming injective, flag assignment never claims -h and never clashes (parser can be built), handshake reply, help everywhere",
     "C17": "round trip: for every public method, every option subset in short or long form (value in the next string, attached `-cV` / `-c=V`, `--name=V`, abbreviations; several flags and an option in one single-dash string; the separator `--` around the positional strings) before or after the positionals, the parse is the call with the expected namespace (defaults = the method's own); dispatch split and reply rule",
     "C18": "one reply per non-blank line (counting invariant over all session histories), buffer empty between commands, errors and help change nothing, sessions independent",
